@@ -40,6 +40,62 @@ def lines(path=None):
     return [f"{h[0]} {h[1]} {h[2]} {h[3]} {h[4]} | " + " ; ".join(body) for (h, body) in kernels(path)]
 
 
+
+# ---- the remaining amd64 kernels: Leopard butterflies / multiplies, xor slices, hand-written galMul* ------------------------------
+# One kernel = `<name> <kind> <isa> <flag> <num> | instr ; …`  kind: xor | galmul | dit28 | dit48 | dit2 | dit4 | mulgf16;
+# isa: sse2 | ssse3 | avx2 | avx512 | gfni; flag: 1 = Xor variant (galmul) / inverse transform (butterflies); num: bytes per
+# iteration (xor, galmul) or the `_N` skip mask (dit48, dit4).
+import sys
+TEXT2 = re.compile(r"^TEXT ·(\w+)\(SB\)")
+
+def classify2(name):
+    m = re.match(r"^(sSE2|avx2)XorSlice(_64)?$", name)
+    if m: return ("xor", "sse2" if m.group(1) == "sSE2" else "avx2", 0, 64 if m.group(2) else 16)
+    m = re.match(r"^galMul(SSSE3|AVX2)(Xor)?(_64)?$", name)
+    if m:
+        isa = m.group(1).lower()
+        return ("galmul", isa, 1 if m.group(2) else 0, 64 if m.group(3) else (32 if isa == "avx2" else 16))
+    m = re.match(r"^(i?)fftDIT28_avx2$", name)
+    if m: return ("dit28", "avx2", 1 if m.group(1) else 0, 0)
+    m = re.match(r"^(i?)fftDIT48_(avx2|gfni)_(\d)$", name)
+    if m: return ("dit48", m.group(2), 1 if m.group(1) else 0, int(m.group(3)))
+    m = re.match(r"^(i?)fftDIT2_(avx2|ssse3)$", name)
+    if m: return ("dit2", m.group(2), 1 if m.group(1) else 0, 0)
+    m = re.match(r"^(i?)fftDIT4_(avx2|avx512)_(\d)$", name)
+    if m: return ("dit4", m.group(2), 1 if m.group(1) else 0, int(m.group(3)))
+    m = re.match(r"^mulgf16_(avx2|ssse3)$", name)
+    if m: return ("mulgf16", m.group(1), 0, 0)
+    return None
+
+def kernels2(path):
+    out, cur, hdr = [], None, None
+    for raw in open(path):
+        line = raw.split("//")[0].rstrip()
+        m = TEXT2.match(line)
+        if m:
+            c = classify2(m.group(1))
+            cur, hdr = ([], (m.group(1),) + c) if c else (None, None)
+            continue
+        if cur is None or not line.strip():
+            continue
+        t = " ".join(line.split())
+        mm = re.match(r"^XOR3WAY\(\s*\S+,\s*(\S+),\s*(\S+),\s*(\S+)\)$", t)
+        if mm:
+            a, b, dst = mm.group(1), mm.group(2), mm.group(3)
+            cur += [f"VPXOR {a}, {dst}, {dst}", f"VPXOR {b}, {dst}, {dst}"]
+        else:
+            cur.append(t)
+        if t == "RET":
+            out.append((hdr, cur))
+            cur = None
+    return out
+
+def lines2(paths=None):
+    paths = paths or [os.path.join(REPO, "galois_gen_amd64.s"), os.path.join(REPO, "galois_amd64.s")]
+    return [" ".join(str(x) for x in h) + " | " + " ; ".join(body) for p in paths for (h, body) in kernels2(p)]
+
+
+
 if __name__ == "__main__":
-    for l in lines():
+    for l in lines() + lines2():
         print(l)
